@@ -51,7 +51,7 @@ def finishes_clean(l0: int, l1: int, l2: int, d0: int, d1: int, d2: int, lag0: i
     if consume == 0 and k != 1:
         return ctx.done(True)
     mode = [None, ('close', k), ('raise', k)][consume]
-    if ctx.BOUNDS.get('DELAYS') is not None:
+    if ctx.B('DELAYS', ()):
         with ctx.untraced():
             out, world, eq, spans, journal = run_world(ids, ['equal'] * n, life, delays, [lag0, lag1], rate, False, mode, child_first, kill_fails)
     else:
